@@ -420,7 +420,11 @@ def r5_record(ctx, chk, rec_t, rule="C12.5"):
         chk.violation(rule, f.where(Li.node), "entry lacks msg / total_time", expected="msg, total_time", found=sorted(rec), construct="run_games record msg")
     # slots of solve() -> node fields
     solve = ctx.func("tad.py::StochasticGame.solve")
-    sxs = SymX(ctx, solve, "StochasticGame", inline_depth=0).run()
+    from ..nf import Kernel
+    ksolve = ctx.cache.get("solve_kernel")
+    if ksolve is None:
+        ksolve = ctx.cache["solve_kernel"] = Kernel(ctx, "tad.py::StochasticGame.solve", "StochasticGame")
+    sxs = ksolve.sx
     ret = sxs.ret
     if ret[0] != "tup" or len(ret[1]) != 8:
         chk.violation(rule, solve.where(), "solve() returns %s values; the batch runner unpacks 8" % (len(ret[1]) if ret[0] == "tup" else "a non-tuple"), expected=8,
@@ -428,12 +432,12 @@ def r5_record(ctx, chk, rec_t, rule="C12.5"):
         return
     for slot, field in FIELD_OF_SLOT.items():
         t = ret[1][slot]
-        okf = False
-        if t[0] == "compr":
-            L = sxs.loops[t[1]]
-            okf = L.elt == ("attr", ("elem", L.id), field) and not L.filters and L.whole
+        le = ksolve.listexpr(t)
+        okf = le is not None and le[2] == ("attr", ("e",), field) and le[1] == TRUE and le[3]
         if okf:
             chk.ok(rule, solve.where(), "solve()[%d] = [state.%s for state in state_list]" % (slot, field))
+        elif le is None:
+            chk.undecided(rule, solve.where(), "solve()[%d] is `%s`: not resolved to a list over the states" % (slot, show(t)[:100]))
         else:
             chk.violation(rule, solve.where(), "solve()[%d] is `%s`; the report labels it as the per-state %s" % (slot, show(t)[:100], field), expected="[state.%s ...]" % field,
                           found=show(t)[:120], construct="solve() slot %d field" % slot)
@@ -441,6 +445,8 @@ def r5_record(ctx, chk, rec_t, rule="C12.5"):
         t = ret[1][slot]
         if t[0] == "idx" and t[2] == C(k) and t[1][0] == "mcall" and t[1][2] == meth:
             chk.ok(rule, solve.where(), "solve()[%d] = %s(...)[%d]" % (slot, meth, k))
+        elif mentions(t, lambda x: x[0] in ("apply", "compr", "res") or (x[0] == "mcall" and x[1] == ("v", "self"))):
+            chk.undecided(rule, solve.where(), "solve()[%d] is `%s`: produced by a helper that was not resolved" % (slot, show(t)[:100]))
         else:
             chk.violation(rule, solve.where(), "solve()[%d] is `%s`, expected %s(...)[%d]" % (slot, show(t)[:100], meth, k), expected="%s()[%d]" % (meth, k), found=show(t)[:120],
                           construct="solve() slot %d source" % slot)
